@@ -114,11 +114,12 @@ def _state(d):
     return {p.name: p.read_text() for p in sorted((d / "src").iterdir()) if p.is_file()}
 
 
-def make_h_history(nsteps, quick=False):
+def make_h_history(nsteps, quick=False, tiny=False):
+    """quick: the smaller file subsets; tiny: three files per operation (for the longest histories)."""
     def h(ctx):
         import src.linter_config.ignore as ign
         from src.api import Linter
-        mode = ctx.pick("dry_storage", ("memory", "tempfile") if not quick else ("memory",))
+        mode = ctx.pick("dry_storage", ("memory", "tempfile") if not (quick or tiny) else ("memory",))
         d = _mk(mode)
         try:
             ign.clear_ignore_parser_cache()
@@ -131,17 +132,17 @@ def make_h_history(nsteps, quick=False):
                 if op == "lint-dir":
                     linter.lint(d)
                 elif op == "lint-file":
-                    f = ctx.pick(f"file{step}", ("dup2.py", "strg1.py", "textutil.py", "magic.py", "deploy") if not quick else ("dup2.py", "textutil.py", "deploy"))
+                    f = ctx.pick(f"file{step}", ("dup2.py", "deploy") if tiny else ("dup2.py", "strg1.py", "textutil.py", "magic.py", "deploy") if not quick else ("dup2.py", "textutil.py", "deploy"))
                     if (d / "src" / f).exists():
                         linter.lint(d / "src" / f)
                     op += ":" + f
                 elif op == "edit":
-                    f = ctx.pick(f"file{step}", tuple(VARIANTS) if not quick else ("dup2.py", "scanner.py", "deploy", "runner", "strg3.py", "hushed.py"))
+                    f = ctx.pick(f"file{step}", ("dup2.py", "strg3.py", "deploy") if tiny else tuple(VARIANTS) if not quick else ("dup2.py", "scanner.py", "deploy", "runner", "strg3.py", "hushed.py"))
                     if (d / "src" / f).exists():
                         (d / "src" / f).write_text(VARIANTS[f])
                     op += ":" + f
                 elif op == "delete":
-                    f = ctx.pick(f"file{step}", ("dup2.py", "strg2.py", "textutil.py") if not quick else ("dup2.py", "textutil.py"))
+                    f = ctx.pick(f"file{step}", ("dup2.py",) if tiny else ("dup2.py", "strg2.py", "textutil.py") if not quick else ("dup2.py", "textutil.py"))
                     if (d / "src" / f).exists():
                         (d / "src" / f).unlink()
                     op += ":" + f
@@ -258,13 +259,19 @@ ASSUMPTIONS = (
 
 
 def obligations(tier):
-    n = 3 if tier == "quick" else 4
-    return [
+    n = 3
+    longer = []
+    if tier != "quick":
+        longer = [Ob(name="K1L-longer-histories-on-one-linter", engine="pathex", harness=make_h_history(4, tiny=True),
+                     functions=["Linter.lint/_lint_path (as K1)"],
+                     bounds="forked: operation sequences of length <= 4 over {lint directory, lint one of 2 files, edit one of 3 files, delete 1 file, add a file}; memory storage",
+                     timeout=3000, workers=14, must_cover=("same",))]
+    return longer + [
         Ob(name="K1-histories-on-one-linter", engine="pathex", harness=make_h_history(n, tier == "quick"),
            functions=["Linter.lint/_lint_path", "Orchestrator.lint_file/lint_directory", "DRYRule.check/finalize (storage life cycle)", "StringlyTypedRule.check/finalize",
                       "FilePlacementRule._linter_cache", "linter_config.ignore.get_ignore_parser cache", "PythonRegexInLoopAnalyzer state", "every other rule object reused across calls"],
            bounds="forked: operation sequences of length <= %d over {lint directory, lint one of 4 files, edit one of 4 files to a finding-free variant, delete one of 3 files, add a file with a duplicate} "
-                  "on one long-lived Linter, followed by a final directory lint compared with a fresh Linter; both DRY storage modes" % n,
+                  "on one long-lived Linter, followed by a final directory lint compared with a fresh Linter; both DRY storage modes in the thorough tier" % n,
            timeout=900 if tier == "quick" else 3400, workers=14, must_cover=("same",)),
         Ob(name="K2-file-order-and-repetition", engine="pathex", harness=h_order,
            functions=["Orchestrator.lint_files", "cross-file rules' storage queries (ORDER BY / dedup)", "per-analyzer state carried from file to file"],
